@@ -375,3 +375,34 @@ Example ex_rule_labels :
   length (rule_auts_attr [K_atom_map] ex_rule) = 2%nat /\ length (rule_auts_attr [] ex_rule) = 1%nat /\
   wfb (to_rule_graph [K_atom_map] ex_rule) = true.
 Proof. vm_compute. repeat split. Qed.
+
+(** ---------- clause 4 in terms of the attribute dictionaries of rule.rc.raw ---------- *)
+From SK Require Import proof.C11_PruneClass.
+
+Theorem prune_attr (X : Type) (key : X -> mapping) (skip : list N) (rc : agraph) (raw : list X) :
+  wf rc ->
+  (forall x p h, In x raw -> In (p, h) (key x) -> In p (node_ids rc)) ->
+  (forall x, In x raw ->
+     exists y, In y (prune key (to_rule_graph skip rc) raw) /\
+       exists s, rule_automorphism skip rc s /\
+         forall p h, In (p, h) (key x) <-> exists p', In (p', h) (key y) /\ p = s p') /\
+  (NoDup raw ->
+   forall x, In x (prune key (to_rule_graph skip rc) raw) <->
+     (In x raw /\
+      forall l1 l2, raw = l1 ++ x :: l2 -> forall z, In z l1 ->
+        ~ exists s, rule_automorphism skip rc s /\
+                    forall p h, In (p, h) (key x) <-> exists p', In (p', h) (key z) /\ p = s p')).
+Proof.
+  intros Hw Hdom.
+  destruct (rule_labels skip rc) as (Hids & Hwf & Haut & _).
+  pose proof (wf_simple _ (Hwf Hw)) as Hs.
+  assert (Hdom' : forall x p h, In x raw -> In (p, h) (key x) -> In p (node_ids (to_rule_graph skip rc))).
+  { intros x p h Hx Hin. rewrite Hids. exact (Hdom x p h Hx Hin). }
+  split.
+  - intros x Hx. destruct (prune_complete_fun X key (to_rule_graph skip rc) raw Hs Hdom' x Hx) as (y & Hy & s & Hsa & E).
+    exists y. split; [exact Hy|]. exists s. split; [apply Haut; exact Hsa | exact E].
+  - intros Hnd x.
+    rewrite (prune_first_of_class X key (to_rule_graph skip rc) raw Hs Hnd (fun x Hx p h Hin => Hdom' x p h Hx Hin) x).
+    split; intros (Hx & Hf); (split; [exact Hx|]); intros l1 l2 E z Hz (s & Hsa & Es); apply (Hf l1 l2 E z Hz);
+      exists s; (split; [apply Haut; exact Hsa | exact Es]).
+Qed.
